@@ -230,7 +230,7 @@ func ruleR16c(c *Check) {
 
 func ruleR16d(c *Check) {
 	c.Rule("R16d", "every field of TargetDTO, AliasDTO and PackageDTO is read by the enrichment that builds model.Target / model.Alias (tabled: PackageDTO.Environments — feature not wired up)", 15)
-	enrich := anchor(c, "R16d", "loading", "", "getEnrichedPackage")
+	enrich := enrichFunc(c, "R16d")
 	if enrich == nil {
 		return
 	}
@@ -399,9 +399,13 @@ func ruleR16e(c *Check) {
 	c.Rule("R16e", "in the first-party loader and label code, an index expression `x[len(x)-k]` or `x[k]` with constant k on a slice is dominated by a length test that makes it in range — in the same function, or at every call site for a slice parameter (also through a slice that is appended to in lock-step) — or the slice is non-empty by construction (strings.Split)", 8)
 	loaderT := c.P.Type("loading", "Loader")
 	roots := methodImpls(c, loaderT, "Load")
-	for _, n := range []string{"getEnrichedPackage", "mergePackages", "LoadPackages"} {
-		if f := c.P.Func("loading", "", n); f != nil {
-			roots = append(roots, f)
+	if f := enrichFunc(c, "R16e"); f != nil {
+		roots = append(roots, f)
+	}
+	// the package walker and everything it calls (merging included)
+	for _, fn := range c.P.Funcs {
+		if engine.InPackage(fn, "loading") && fn.Parent() == nil && len(callsNamed(fn, "github.com/boyter/gocodewalker.NewParallelFileWalker")) > 0 {
+			roots = append(roots, fn)
 		}
 	}
 	reach := c.G.ReachableFuncs(roots, nil)
